@@ -248,6 +248,80 @@ theorem lonlat_of_unit (h0 : 0 < tol) (h1 : tol < 1) (t : V3 ℝ) (hu : normSq t
       rw [e0, e1, xyz_mod_two_pi, xyz_of_lonlat_of_xyz t hu hxy]
 
 
+/-- `_populate_node_latlon` on a positive multiple of the unit vector `t`: the longitude is ≥ 0 (it
+    is NOT wrapped: it lies in [0, 360)), the latitude is in range, and the pair denotes `t` -/
+theorem nodeLL_of_unit (h0 : 0 < tol) (h1 : tol < 1) (t : V3 ℝ) (hu : normSq t = 1) :
+    let p : Deg ℝ × Deg ℝ := (rad2deg (R tol ct) (lonLatRadOfXyz (R tol ct) false t).1,
+                              rad2deg (R tol ct) (lonLatRadOfXyz (R tol ct) false t).2)
+    (-180 ≤ p.1.val ∧ -90 ≤ p.2.val ∧ p.2.val ≤ 90) ∧ SameDir tol (dirDeg (R tol ct) p) t := by
+  intro p
+  have hu' : t.x ^ 2 + t.y ^ 2 + t.z ^ 2 = 1 := by
+    simp only [normSq, dot] at hu; nlinarith [hu]
+  have hpi := Real.pi_pos
+  have hdir : dirDeg (R tol ct) p
+      = xyzOfLonLatRad (R tol ct) (lonLatRadOfXyz (R tol ct) false t).1 (lonLatRadOfXyz (R tol ct) false t).2 := by
+    simp only [p, dirDeg, deg2rad_rad2deg]
+  rw [hdir]
+  by_cases hm : 1 - tol < |t.z|
+  · have hz0 : t.z ≠ 0 := by
+      intro h; rw [h, abs_zero] at hm; linarith
+    simp only [p, lonLatRad_mask t hm, rad2deg]
+    rcases lt_or_gt_of_ne hz0 with hneg | hpos
+    · have hs : signK (R tol ct) t.z = -1 := by
+        simp [signK, R, hneg, not_lt.mpr hneg.le]
+      rw [hs]
+      have hlat : (-1 * Real.pi / 2 * (180 / (R tol ct).pi)) = -90 := by
+        simp only [R]; field_simp; norm_num
+      rw [hlat]
+      refine ⟨⟨by norm_num, by norm_num, by norm_num⟩, Or.inr (Or.inr ⟨?_, ?_⟩)⟩
+      · rw [abs_of_neg hneg] at hm; exact hm
+      · simp only [xyzOfLonLatRad, R]
+        have : (-1 : ℝ) * Real.pi / 2 = -(Real.pi / 2) := by ring
+        rw [this]
+        apply V3.ext' <;> simp
+    · have hs : signK (R tol ct) t.z = 1 := by
+        simp [signK, R, hpos]
+      rw [hs]
+      have hlat : (1 * Real.pi / 2 * (180 / (R tol ct).pi)) = 90 := by
+        simp only [R]; field_simp; norm_num
+      rw [hlat]
+      refine ⟨⟨by norm_num, by norm_num, by norm_num⟩, Or.inr (Or.inl ⟨?_, ?_⟩)⟩
+      · rw [abs_of_pos hpos] at hm; exact hm
+      · simp only [xyzOfLonLatRad, R]
+        have : (1 : ℝ) * Real.pi / 2 = Real.pi / 2 := by ring
+        rw [this]
+        apply V3.ext' <;> simp
+  · have hz : |t.z| < 1 := by
+      have := not_lt.mp hm; linarith
+    have hxy : t.x ^ 2 + t.y ^ 2 ≠ 0 := by
+      have : t.z ^ 2 < 1 := (sq_lt_one_iff_abs_lt_one t.z).mpr hz
+      intro h; nlinarith
+    simp only [p, lonLatRad_nomask t hm]
+    have h180 : 0 < 180 / Real.pi := by positivity
+    refine ⟨⟨?_, ?_, ?_⟩, Or.inl ?_⟩
+    · simp only [rad2deg, fmod_def]
+      have h2pi : (0:ℝ) < 2 * (R tol ct).pi := by simp only [R]; positivity
+      have hfl := Int.floor_le (Complex.arg ⟨t.x, t.y⟩ / (2 * (R tol ct).pi))
+      rw [le_div_iff₀ h2pi] at hfl
+      have hnn : 0 ≤ Complex.arg ⟨t.x, t.y⟩ - 2 * (R tol ct).pi * (⌊Complex.arg ⟨t.x, t.y⟩ / (2 * (R tol ct).pi)⌋ : ℤ) := by
+        linarith
+      have : 0 ≤ (Complex.arg ⟨t.x, t.y⟩ - 2 * (R tol ct).pi * (⌊Complex.arg ⟨t.x, t.y⟩ / (2 * (R tol ct).pi)⌋ : ℤ)) * (180 / (R tol ct).pi) :=
+        mul_nonneg hnn (by simp only [R]; exact h180.le)
+      linarith
+    · simp only [rad2deg, R]
+      have := Real.neg_pi_div_two_le_arcsin t.z
+      have : -(Real.pi / 2) * (180 / Real.pi) ≤ Real.arcsin t.z * (180 / Real.pi) :=
+        mul_le_mul_of_nonneg_right this h180.le
+      have e : -(Real.pi / 2) * (180 / Real.pi) = -90 := by field_simp; norm_num
+      linarith
+    · simp only [rad2deg, R]
+      have := Real.arcsin_le_pi_div_two t.z
+      have : Real.arcsin t.z * (180 / Real.pi) ≤ (Real.pi / 2) * (180 / Real.pi) :=
+        mul_le_mul_of_nonneg_right this h180.le
+      have e : (Real.pi / 2) * (180 / Real.pi) = 90 := by field_simp; norm_num
+      linarith
+    · rw [xyz_mod_two_pi, xyz_of_lonlat_of_xyz t hu hxy]
+
 /-! ### `normalize=True`: the double normalisation is the identity on the normalised vector -/
 
 theorem lonLatRad_norm (v : V3 ℝ) (hv : normSq v ≠ 0) :
